@@ -1,42 +1,7 @@
 (* Line-protocol driver around the model and specification functions extracted from Coq
-   (model.ml).  Same request lines and the same canonical result lines as harness/drv.c.
-   Glue only: conversions between OCaml ints/strings and the extracted inductive
-   numbers, field parsing and printing. *)
+   (model.ml).  Same request lines and the same canonical result lines as harness/drv.c. *)
 open Model
-
-(* ---- number glue ---------------------------------------------------------- *)
-let rec pos_of_int (i : int) : positive =
-  if i <= 1 then XH
-  else if i land 1 = 0 then XO (pos_of_int (i lsr 1))
-  else XI (pos_of_int (i lsr 1))
-let n_of_int (i : int) : n = if i <= 0 then N0 else Npos (pos_of_int i)
-let rec int_of_pos (p : positive) : int =
-  match p with XH -> 1 | XO q -> 2 * int_of_pos q | XI q -> 2 * int_of_pos q + 1
-let int_of_n (x : n) : int = match x with N0 -> 0 | Npos p -> int_of_pos p
-let rec nat_of_int (i : int) : nat = if i <= 0 then O else S (nat_of_int (i - 1))
-let int_of_nat (x : nat) : int =
-  let rec go acc = function O -> acc | S k -> go (acc + 1) k in go 0 x
-
-(* ---- field glue ------------------------------------------------------------- *)
-let text_of_field (f : string) : n list option =
-  if f = "-" then None
-  else if f = "_" then Some []
-  else Some (List.map (fun h -> n_of_int (int_of_string ("0x" ^ h))) (String.split_on_char '.' f))
-let text_of_field_nn f = match text_of_field f with None -> [] | Some l -> l
-let field_of_text (l : n list) : string =
-  match l with
-  | [] -> "_"
-  | _ -> String.concat "." (List.map (fun c -> Printf.sprintf "%x" (int_of_n c)) l)
-let field_of_otext = function None -> "-" | Some l -> field_of_text l
-let bool_of_field f = f <> "0"
-
-let brk_of_int = function 0 -> BrToLf | 1 -> BrToCrlf | 2 -> BrToCr | _ -> BrDontTouch
-let sbrk_of_int = function 0 -> ToLf | 1 -> ToCrlf | 2 -> ToCr | _ -> DontTouch
-
-(* self-test of the glue *)
-let () =
-  List.iter (fun i -> assert (int_of_n (n_of_int i) = i)) [0; 1; 2; 3; 9; 10; 37; 255; 256; 65535; 1114111];
-  assert (field_of_text (text_of_field_nn "61.2f.c8") = "61.2f.c8")
+open Glue
 
 (* ---- operations --------------------------------------------------------------- *)
 let op_esc f =
@@ -91,15 +56,4 @@ let dispatch (f : string array) : string =
   | "spec_crlf" -> op_spec_crlf f
   | op -> "?unknown-op " ^ op
 
-let () =
-  try
-    while true do
-      let line = input_line stdin in
-      let f = Array.of_list (List.filter (fun s -> s <> "") (String.split_on_char ' ' line)) in
-      if Array.length f = 0 then print_newline ()
-      else begin
-        (try print_string (dispatch f) with e -> print_string ("?exception " ^ Printexc.to_string e));
-        print_newline ()
-      end
-    done
-  with End_of_file -> ()
+let () = main_loop dispatch
